@@ -171,6 +171,7 @@ func makeGenesis(chainKind string) *genesis.Genesis {
 		g.ChainID += "-factory"
 		g.Alloc[factoryAddr] = genesis.GenesisAccount{Balance: big.NewInt(0), Code: append([]byte{}, factoryRuntime...)}
 		g.Alloc[forwarderAddr] = genesis.GenesisAccount{Balance: big.NewInt(0), Code: forwarderRuntime(create2Child)}
+		g.Alloc[reverterAddr] = genesis.GenesisAccount{Balance: big.NewInt(0), Code: reverterRuntime(create2Child)}
 	}
 	return g
 }
@@ -178,6 +179,7 @@ func makeGenesis(chainKind string) *genesis.Genesis {
 var allocContract = common.HexToAddress("0x00000000000000000000000000000000000c0de6")
 var factoryAddr = common.HexToAddress("0x0000000000000000000000000000000000fac706")
 var forwarderAddr = common.HexToAddress("0x0000000000000000000000000000000000f06a6d")
+var reverterAddr = common.HexToAddress("0x0000000000000000000000000000000000e7e670")
 
 // create2Child is where the factory's CREATE2 (salt 0, init code child2Init) puts the multi-purpose contract.
 var create2Child = crypto.CreateAddress2(factoryAddr, [32]byte{}, crypto.Keccak256(child2Init))
